@@ -9,4 +9,5 @@ cd "$HERE"
 cd lean
 lake build driver || exit 1
 lake build Mistletoe || echo "setup: some library modules failed to build (the checks that need them will report it)"
+lake build propsdriver || echo "setup: the hypothesis driver failed to build (C03/C14 will report it)"
 exit 0
